@@ -748,6 +748,26 @@ func laws(sel int, in, got []int64, law func(lsel int, lin []int64, sig string))
 		evs := r.events()
 		objs, nodes := finalWorld(w, evs)
 		s, fl := runHistory(w, evs, nil)
+		// The cache requeues a HyperNode event whose handler failed (processSyncHyperNode):
+		// a DeleteHyperNode that returned an error is retried until it succeeds.  Replay
+		// those retries (two passes) before the final view is judged.
+		final := map[int64]bool{}
+		for _, o := range objs {
+			final[o.name] = true
+		}
+		for pass := 0; pass < 2; pass++ {
+			indexed := map[int64]bool{}
+			for _, set := range s.hni.HyperNodesSetByTier() {
+				for n := range set {
+					indexed[hnID(n)] = true
+				}
+			}
+			for _, id := range sortedIDs(s.hni.HyperNodes(), hnID) {
+				if indexed[id] && !final[id] {
+					_ = s.hni.DeleteHyperNode(hnName(id))
+				}
+			}
+		}
 		incr := encView(s.hni)
 		fevs := []event{}
 		for _, o := range objs {
@@ -763,13 +783,12 @@ func laws(sel int, in, got []int64, law func(lsel int, lin []int64, sig string))
 		// only to the law the finding explains; 111/112 re-check everything D2 does not touch.
 		const d2 = "C14-D2-selector-members-stale-after-node-event"
 		const d5 = "C14-D5-double-claim-undetected-after-child-delete"
-		const d6 = "C14-D6-failed-delete-leaves-entry-marked-deleting"
 		const d7 = "C14-D7-bad-membership-invisible-under-tier-inversion"
 		const d9 = "C14-D9-release-resets-parent-pointer-of-member-adopted-by-another"
 		pick := func(f flags, order ...string) string {
 			for _, sg := range order {
 				switch {
-				case sg == d2 && f.selStale, sg == d5 && f.deletedClaimed, sg == d6 && f.failedDelete, sg == d7 && f.tierInversion, sg == d9 && f.foreignReset:
+				case sg == d2 && f.selStale, sg == d5 && f.deletedClaimed, sg == d7 && f.tierInversion, sg == d9 && f.foreignReset:
 					return sg
 				}
 			}
@@ -777,14 +796,14 @@ func laws(sel int, in, got []int64, law func(lsel int, lin []int64, sig string))
 		}
 		both := flags{selStale: fl.selStale || ffl.selStale, failedDelete: fl.failedDelete || ffl.failedDelete,
 			tierInversion: fl.tierInversion || ffl.tierInversion, foreignReset: fl.foreignReset || ffl.foreignReset}
-		law(101, cat(encEnv(w, nodes), eo, incr), pick(fl, d2, d6, d7, d9))
-		law(111, cat(encEnv(w, nodes), eo, incr), pick(fl, d6, d7, d9))
-		law(102, cat(eo, incr, fresh), pick(both, d2, d6, d7, d9))
-		law(112, cat(eo, incr, fresh), pick(both, d6, d7, d9))
-		law(105, cat(eo, incr), pick(fl, d6))
-		law(106, cat(eo, incr), pick(fl, d6, d7, d5))
-		law(101, cat(encEnv(w, nodes), eo, fresh), pick(ffl, d2, d6, d7, d9))
-		law(106, cat(eo, fresh), pick(ffl, d6, d7, d5))
+		law(101, cat(encEnv(w, nodes), eo, incr), pick(fl, d2, d7, d9))
+		law(111, cat(encEnv(w, nodes), eo, incr), pick(fl, d7, d9))
+		law(102, cat(eo, incr, fresh), pick(both, d2, d7, d9))
+		law(112, cat(eo, incr, fresh), pick(both, d7, d9))
+		law(105, cat(eo, incr), pick(fl, d7))
+		law(106, cat(eo, incr), pick(fl, d7, d5))
+		law(101, cat(encEnv(w, nodes), eo, fresh), pick(ffl, d2, d7, d9))
+		law(106, cat(eo, fresh), pick(ffl, d7, d5))
 	case 3:
 		traceLaws(law)
 	case 2:
